@@ -276,9 +276,13 @@ def write_tags(repo):
 
 
 # ---------------------------------------------------------------- (d) add_fragment / capacity test
-def add_decision(repo):
-    """symbolic execution of Molecule.add_fragment(fragment, use_hash=True); self._add_fragment(fragment) is inlined
-    up to the statements that can raise.  Result: 0 return False, 1 added (return True), 2 OverflowError."""
+def add_decision(repo, use_hash=True):
+    """symbolic execution of Molecule.add_fragment(fragment, use_hash=True / False); self._add_fragment(fragment) is
+    inlined up to the statements that can raise.  Result: 0 return False, 1 added (return True), 2 OverflowError.
+    use_hash=False (pooling_method=0): the member scan `for f in self.fragments: if f == fragment: <add>; return True`
+    is the test `matches` (= some associated fragment's __eq__ accepts the incoming one); role checks: the loop must
+    iterate self.fragments, the compared pair must be (loop variable, `fragment`) with the MEMBER on the left, the
+    guarded body must leave the loop by return on every path."""
     src, addf = _load(repo, MOL, 'Molecule.add_fragment')
     _, inner = _load(repo, MOL, 'Molecule._add_fragment')
     env = {'len(self.fragments) == 0': 'empty', 'self == fragment': 'matches',
@@ -336,18 +340,131 @@ def add_decision(repo):
             return run(rest, added)
         if isinstance(st, ast.If):
             if ast.unparse(st.test) == 'use_hash':
-                return run(list(st.body) + rest, added)          # pooling_method=1: use_hash=True
+                # pooling_method=1: use_hash=True; pooling_method=0: use_hash=False
+                return run(list(st.body if use_hash else st.orelse) + rest, added)
             if overflow_block(st.body) and not st.orelse:
                 return '(if %s then 2 else %s)' % (tr.b(st.test), run(rest, added))
             return '(if %s then %s else %s)' % (tr.b(st.test), run(list(st.body) + rest, added), run(list(st.orelse) + rest, added))
+        if isinstance(st, ast.For) and not use_hash and not added:
+            # for f in self.fragments: if f == fragment: <body ending in return>
+            if not (isinstance(st.target, ast.Name) and ast.unparse(st.iter) == 'self.fragments' and not st.orelse
+                    and len(st.body) == 1 and isinstance(st.body[0], ast.If) and not st.body[0].orelse):
+                raise Untranslatable('Molecule.add_fragment: member scan outside the subset at line %d' % st.lineno)
+            t = st.body[0].test
+            if not (isinstance(t, ast.Compare) and len(t.ops) == 1 and isinstance(t.ops[0], ast.Eq)
+                    and isinstance(t.left, ast.Name) and t.left.id == st.target.id
+                    and isinstance(t.comparators[0], ast.Name) and t.comparators[0].id == 'fragment'):
+                raise Untranslatable('Molecule.add_fragment: the member scan does not test `<member> == fragment` (line %d)' % st.lineno)
+            seen_scan.append(st.lineno)
+            # run() of the guarded body raises unless every path through it returns (= leaves the loop)
+            return '(if matches then %s else %s)' % (run(list(st.body[0].body), added), run(rest, added))
         raise Untranslatable('Molecule.add_fragment: statement outside the subset at line %d: %s' % (st.lineno, ast.unparse(st)[:80]))
+    seen_scan = []
+    if not use_hash:
+        env.pop('self == fragment')
     expr = run(_strip_doc(list(addf.body)), False)
+    if not use_hash and len(seen_scan) < 1:
+        raise Untranslatable('Molecule.add_fragment: no scan over self.fragments on the use_hash=False path')
+    if use_hash and 'matches' not in expr:
+        raise Untranslatable('Molecule.add_fragment: the use_hash=True path does not test `self == fragment`')
+    name = 'g_add_decision' if use_hash else 'g_add_decision0'
     sha = _sha(_strip_doc(list(addf.body)) + _strip_doc(list(inner.body))[:3])
     text = ('(* source: %s Molecule.add_fragment lines %d-%d with Molecule._add_fragment (line %d) inlined up to its capacity\n'
-            '   guard; sha256(code) %s.  0 = return False, 1 = added, 2 = OverflowError *)\n'
-            'Definition g_add_decision (empty matches has_cap : bool) (n cap : Z) : Z :=\n  %s.'
-            % (MOL, addf.lineno, addf.end_lineno, inner.lineno, sha, expr))
-    return text, _meta(MOL, addf, sha, 'g_add_decision')
+            '   guard; sha256(code) %s.  0 = return False, 1 = added, 2 = OverflowError%s *)\n'
+            'Definition %s (empty matches has_cap : bool) (n cap : Z) : Z :=\n  %s.'
+            % (MOL, addf.lineno, addf.end_lineno, inner.lineno, sha,
+               '' if use_hash else ';\n   use_hash=False path: matches = some associated fragment f has f == fragment', name, expr))
+    return text, _meta(MOL, addf, sha, name)
+
+
+# ---------------------------------------------------------------- (e) MoleculeIterator options (roles only)
+ITER = 'singlecellmultiomics/molecule/iterator.py'
+
+
+def iterator_options(repo):
+    """role checks on MoleculeIterator.__iter__ for the options Model/C06x.v models (no expression to translate):
+    * `if self.every_fragment_as_molecule:` is a top-level statement of the read loop AFTER the validity test
+      (`if not fragment.is_valid(): ... continue`) and BEFORE the pooling `try`; its body yields and continues;
+    * inside the `try`, the branch `self.pooling_method == 0` scans `self.molecules` with add_fragment(use_hash=False)
+      and the branch `self.pooling_method == 1` scans `self.molecules_per_cell[fragment.match_hash]` with use_hash=True;
+      both set `added` and break on success;
+    * a fragment that was not added is appended to the same container it was scanned in.
+    Emits g_pool_use_hash (pooling_method -> use_hash) so that the choice of g_add_decision / g_add_decision0 in the
+    model is what the source says."""
+    src, fn = _load(repo, ITER, 'MoleculeIterator.__iter__')
+    loops = [st for st in fn.body if isinstance(st, ast.For) and 'self.matePairIterator' in ast.unparse(st.iter)]
+    if len(loops) != 1:
+        raise Untranslatable('MoleculeIterator.__iter__: expected exactly one read loop over self.matePairIterator')
+    body = loops[0].body
+    idx = {}
+    for i, st in enumerate(body):
+        if isinstance(st, ast.If) and ast.unparse(st.test) == 'not fragment.is_valid()':
+            idx.setdefault('valid', i)
+            if not isinstance(st.body[-1], ast.Continue):
+                raise Untranslatable('MoleculeIterator.__iter__: the invalid-fragment branch does not `continue`')
+        elif isinstance(st, ast.If) and ast.unparse(st.test) == 'self.every_fragment_as_molecule':
+            idx.setdefault('efm', i)
+            if st.orelse or not isinstance(st.body[-1], ast.Continue) or not any(
+                    isinstance(n, ast.Yield) for s_ in st.body for n in ast.walk(s_)):
+                raise Untranslatable('MoleculeIterator.__iter__: every_fragment_as_molecule branch must yield and continue')
+        elif isinstance(st, ast.Try):
+            idx.setdefault('try', i)
+    if sorted(idx) != ['efm', 'try', 'valid'] or not (idx['valid'] < idx['efm'] < idx['try']):
+        raise Untranslatable('MoleculeIterator.__iter__: expected validity test < every_fragment_as_molecule < pooling try, got %r' % idx)
+    every = [n for n in ast.walk(fn) if isinstance(n, ast.If) and 'every_fragment_as_molecule' in ast.unparse(n.test)]
+    if len(every) != 1:
+        raise Untranslatable('MoleculeIterator.__iter__: every_fragment_as_molecule tested more than once')
+    tr = body[idx['try']]
+    if len(tr.body) != 1 or not isinstance(tr.body[0], ast.If):
+        raise Untranslatable('MoleculeIterator.__iter__: the pooling try must hold one if/elif over self.pooling_method')
+    branches, node = {}, tr.body[0]
+    while True:
+        t = ast.unparse(node.test)
+        if t not in ('self.pooling_method == 0', 'self.pooling_method == 1'):
+            raise Untranslatable('MoleculeIterator.__iter__: unexpected pooling test %s' % t)
+        branches[int(t[-1])] = node.body
+        if len(node.orelse) == 1 and isinstance(node.orelse[0], ast.If):
+            node = node.orelse[0]
+        elif not node.orelse:
+            break
+        else:
+            raise Untranslatable('MoleculeIterator.__iter__: pooling if/elif has a trailing else')
+    if sorted(branches) != [0, 1]:
+        raise Untranslatable('MoleculeIterator.__iter__: pooling branches %r' % sorted(branches))
+    want_iter = {0: 'self.molecules', 1: 'self.molecules_per_cell[fragment.match_hash]'}
+    use_hash = {}
+    for pm, stmts in branches.items():
+        if not (len(stmts) == 1 and isinstance(stmts[0], ast.For) and not stmts[0].orelse
+                and ast.unparse(stmts[0].iter) == want_iter[pm] and isinstance(stmts[0].target, ast.Name)
+                and len(stmts[0].body) == 1 and isinstance(stmts[0].body[0], ast.If) and not stmts[0].body[0].orelse):
+            raise Untranslatable('MoleculeIterator.__iter__: pooling_method %d does not scan %s' % (pm, want_iter[pm]))
+        var = stmts[0].target.id
+        call = stmts[0].body[0].test
+        if not (isinstance(call, ast.Call) and ast.unparse(call.func) == var + '.add_fragment' and len(call.args) == 1
+                and ast.unparse(call.args[0]) == 'fragment' and len(call.keywords) == 1 and call.keywords[0].arg == 'use_hash'
+                and isinstance(call.keywords[0].value, ast.Constant) and isinstance(call.keywords[0].value.value, bool)):
+            raise Untranslatable('MoleculeIterator.__iter__: pooling_method %d: unexpected add_fragment call' % pm)
+        inner = stmts[0].body[0].body
+        if not (len(inner) == 2 and ast.unparse(inner[0]) == 'added = True' and isinstance(inner[1], ast.Break)):
+            raise Untranslatable('MoleculeIterator.__iter__: pooling_method %d: success must set added and break' % pm)
+        use_hash[pm] = call.keywords[0].value.value
+    if use_hash != {0: False, 1: True}:
+        raise Untranslatable('MoleculeIterator.__iter__: use_hash per pooling method is %r; Model/C06x.v models {0: False, 1: True}' % use_hash)
+    # the `if not added:` append goes to the container that was scanned
+    app = [st for st in body if isinstance(st, ast.If) and ast.unparse(st.test) == 'not added']
+    if len(app) != 1 or not (len(app[0].body) == 1 and isinstance(app[0].body[0], ast.If)
+                             and ast.unparse(app[0].body[0].test) == 'self.pooling_method == 0'
+                             and ast.unparse(app[0].body[0].body[0]).startswith('self.molecules.append(')
+                             and ast.unparse(app[0].body[0].orelse[0]).startswith('self.molecules_per_cell[fragment.match_hash].append(')):
+        raise Untranslatable('MoleculeIterator.__iter__: a new molecule is not appended to the scanned container')
+    segs = [body[idx['valid']], body[idx['efm']], tr, app[0]]
+    sha = _sha(segs)
+    text = ('(* source: %s MoleculeIterator.__iter__ lines %d-%d: validity test, every_fragment_as_molecule branch, pooling try,\n'
+            '   append of a new molecule; sha256(code) %s.  use_hash keyword per pooling_method *)\n'
+            'Definition g_pool_use_hash (pooling_method : Z) : bool :=\n  (if (pooling_method =? 0) then %s else %s).'
+            % (ITER, body[idx['valid']].lineno, app[0].end_lineno, sha,
+               'true' if use_hash[0] else 'false', 'true' if use_hash[1] else 'false'))
+    return text, _meta(ITER, loops[0], sha, 'g_pool_use_hash')
 
 
 # ---------------------------------------------------------------- driver
@@ -384,6 +501,18 @@ def _regen(out, repo):
     c, m = write_tags(repo)
     chunks += c; meta += m
     add(add_decision(repo))
+    add(add_decision(repo, use_hash=False))
+    try:
+        add(iterator_options(repo))
+    except Untranslatable as e:
+        # the read loop of the iterator was never regenerated (hand-written model tied by K: Model/C06.v step, Model/C06x.v
+        # step0); a restructured loop therefore does not take the regenerated comparison kernel above down with it:
+        # the use_hash routing falls back to the hand-held value and the refusal is recorded in the evidence
+        chunks.append('(* MoleculeIterator.__iter__ not recognised (%s): hand-held value, tied by the correspondence check only *)\n'
+                      'Definition g_pool_use_hash (pooling_method : Z) : bool :=\n  (if (pooling_method =? 0) then false else true).'
+                      % str(e).replace('*)', '* )'))
+        meta.append({'source': ITER, 'lines': [0, 0], 'sha256': '', 'coq': 'g_pool_use_hash',
+                     'tie': 'hand-held (translator refused: %s); correspondence only' % e})
     py2coq.write_gen(out, '', chunks)
     return meta
 
